@@ -62,7 +62,18 @@ let verdict wb =
   let rec first = function [] -> "none" | (n, f) :: r -> if f wb then first r else n in
   "notwf:" ^ first clauses
 
+(* descriptor surgery: dc start count n (min max)*  /  ic column count n (min max)*  ->  ok n (min max)* | err *)
+let parse_cols toks =
+  let (n, toks) = count toks in
+  fst (take_n n (function a :: b :: t ->
+      ({ c_min = zi a; c_max = zi b; c_width = Z0; c_custom = false; c_hidden = false; c_style = None }, t) | _ -> failwith "col") toks)
+let cols_s = function
+  | Ok cs -> String.concat " " ("ok" :: string_of_int (List.length cs) :: List.concat_map (fun c -> [zs c.c_min; zs c.c_max]) cs)
+  | Err -> "err" | Panic -> "panic"
+
 let handle f = match f with
+  | "dc" :: a :: b :: toks -> cols_s (delete_columns_descrs (zi a) (zi b) (parse_cols toks))
+  | "ic" :: a :: b :: toks -> cols_s (insert_columns_descrs (zi a) (zi b) (parse_cols toks))
   | "wb" :: toks -> verdict (parse_wb toks)
   | ["init"] -> verdict init
   | _ -> "badcase"
